@@ -3,6 +3,7 @@
    Hypothesis hidden in [good]: initial inventory levels are >= 0 (wf_init); with a negative initial level the
    identity sum BO = IL^- is false from period 0 — for the model AND for stockpyl (recorded known finding). *)
 From SV Require Import Sim.Model Sim.Inv_base Sim.Inv_book Sim.Inv_node Sim.Inv_run Sim.Main Sim.Example.
+From SV Require Import Sim2.State2 Sim2.Model2 Sim2.Inv2a_tac Sim2.Inv2a_nn Sim2.Inv2a_node Sim2.Inv2a_run Sim2.Wfb2 Sim2.Example2 Sim2.Main2a.
 
 Section C02.
 Variable (NW : net) (inputs : list ((N -> bool) * (N -> Q))).
@@ -51,9 +52,69 @@ Example C02_nonvacuous : good ex_net /\ dem_ok ex_inputs /\
   exists e, In e (run ex_net ex_inputs) /\ 0 < gq e (fBO, 2%N, Nd 3%N) + gq e (fBO, 3%N, Ext) /\ 0 < qsum (gl e (fSP, 3%N, Nd 2%N)) + gq e (fODI, 2%N, Nd 3%N).
 Proof. exact (conj ex_good (conj ex_dem_ok ex_nontrivial)). Qed.
 
+(* ============ MULTI-PRODUCT networks with bills of materials (Stage-2 model Sim2/Model2.v; proofs Sim2/Inv2a_*.v, Main2a.v) ============
+   Same statements per (node, product) / (node, supplier, raw material), for every run of every network accepted by the boolean
+   well-formedness check [good2b] (duplicate-free product and customer lists, BOM numbers > 0 with distinct raw materials, policy
+   parameters giving non-negative orders, non-negative initial values, visit lists inside the node list) and non-negative demands;
+   they hold for every value of the position-error input i_err. New fact: RAW-MATERIAL INVENTORY STAYS NON-NEGATIVE, because the
+   shares into which _raw_materials_to_finished_goods splits a raw material among the products sum to at most what is available
+   (this is what the fix: commit 98003ba made true under order_quantity_override as well). *)
+Theorem C02_multi_backorders_eq_neg_il : forall (NW : net2) (inputs : inputs2), good2b NW = true -> dem_ok2 inputs ->
+  forall e n k, In e (run2 NW inputs) ->
+  qsumf (fun c => gq2 e (fBO, n, c, k)) (k_custs (PC NW n k)) == qmax 0 (- gq2 e (fIL, n, Ext, k)).
+Proof. exact C02m_backorders_eq_neg_il. Qed.
+Theorem C02_multi_counts_nonneg : forall (NW : net2) (inputs : inputs2), good2b NW = true -> dem_ok2 inputs ->
+  forall e n x i, In e (run2 NW inputs) ->
+  0 <= gq2 e (fOS, n, x, i) /\ 0 <= gq2 e (fIO, n, x, i) /\ 0 <= gq2 e (fOQ, n, x, i) /\ 0 <= gq2 e (fOQFG, n, Ext, i) /\ 0 <= gq2 e (fIS, n, x, i)
+  /\ 0 <= gq2 e (fRM, n, Ext, i) /\ 0 <= gq2 e (fBO, n, x, i) /\ 0 <= gq2 e (fODI, n, x, i) /\ 0 <= gq2 e (fIDI, n, x, i)
+  /\ 0 <= gq2 e (fDMFS, n, Ext, i) /\ 0 <= gq2 e (fDC, n, Ext, i) /\ 0 <= gq2 e (fDMC, n, Ext, i)
+  /\ Forall (fun v => 0 <= v) (gl2 e (fSP, n, x, i)) /\ Forall (fun v => 0 <= v) (gl2 e (fOP, n, x, i)).
+Proof. exact C02m_counts_nonneg. Qed.
+Theorem C02_multi_shares_le_available : forall (NW : net2) s n r, 0 <= gq2 s (fRM, n, Ext, r) ->
+  qsumf (share2 NW s n r) (prods_for NW n r) <= gq2 s (fRM, n, Ext, r).
+Proof. exact C02m_shares_le_available. Qed.
+Theorem C02_multi_production_within_stock : forall (NW : net2), good2b NW = true -> forall s n r, In n (nodes2 NW) -> NN2 s ->
+  qsumf (fun k => made2 NW s n k * cons_of NW n k r) (n_prods (cfg2 NW n)) <= gq2 s (fRM, n, Ext, r)
+  /\ gq2 (produce2 NW s n) (fRM, n, Ext, r) == gq2 s (fRM, n, Ext, r) - qsumf (fun k => made2 NW s n k * cons_of NW n k r) (n_prods (cfg2 NW n)).
+Proof. exact C02m_production_within_stock. Qed.
+Theorem C02_multi_on_order_nonneg : forall (NW : net2) (inputs : inputs2), good2b NW = true -> dem_ok2 inputs -> cons2b NW = true ->
+  forall e n p r, In e (run2 NW inputs) -> 0 <= gq2 e (fOO, n, p, r).
+Proof. exact C02m_on_order_nonneg. Qed.
+Theorem C02_multi_shipping_bound : forall (NW : net2), good2b NW = true -> forall (dis : N -> bool) s n k,
+  In n (nodes2 NW) -> In k (n_prods (cfg2 NW n)) -> NN2 s -> ND2 NW s ->
+  let e := ships_action2 NW dis s n in
+  exists made, 0 <= made /\
+    SF2 fOS e n k (k_custs (PC NW n k)) + SF2 fODI e n k (k_custs (PC NW n k)) - SF2 fODI s n k (k_custs (PC NW n k))
+      <= qmax 0 (gq2 s (fIL, n, Ext, k)) + made /\
+    gq2 e (fIL, n, Ext, k) == gq2 s (fIL, n, Ext, k) + made - SF2 fPIO s n k (k_custs (PC NW n k)).
+Proof. exact C02m_shipping_bound. Qed.
+Theorem C02_multi_demand_met_bounds : forall (NW : net2) (inputs : inputs2), good2b NW = true -> dem_ok2 inputs ->
+  forall e n k, In e (run2 NW inputs) -> 0 <= gq2 e (fDMC, n, Ext, k) /\ gq2 e (fDMC, n, Ext, k) <= gq2 e (fDC, n, Ext, k).
+Proof. exact C02m_demand_met_bounds. Qed.
+Theorem C02_multi_fill_rate : forall (NW : net2) (inputs : inputs2), good2b NW = true -> dem_ok2 inputs ->
+  forall e n k, In e (run2 NW inputs) -> In n (ship_visit2 NW) -> In k (n_prods (cfg2 NW n)) ->
+  gq2 e (fFR, n, Ext, k) = (if qltb 0 (gq2 e (fDC, n, Ext, k)) then gq2 e (fDMC, n, Ext, k) / gq2 e (fDC, n, Ext, k) else 1)
+  /\ 0 <= gq2 e (fFR, n, Ext, k) /\ gq2 e (fFR, n, Ext, k) <= 1.
+Proof. exact C02m_fill_rate. Qed.
+(* a network with two products sharing a raw material, a raw material with two suppliers, BOM numbers 2 and 3, two disruption types:
+   the hypotheses hold (vm_compute) and the run has backorders, production of both products, held items and raw-material stock *)
+Example C02_multi_nonvacuous : good2b ex2_net = true /\ cons2b ex2_net = true /\ dem_ok2 ex2_inputs /\
+  exists e, In e (run2 ex2_net ex2_inputs) /\ 0 < gq2 e (fBO, 3%N, Ext, 20%N) /\ 0 < gq2 e (fCP, 3%N, Ext, 20%N) /\ 0 < gq2 e (fCP, 3%N, Ext, 21%N)
+    /\ 0 < gq2 e (fODI, 2%N, Nd 3%N, 12%N) /\ 0 < gq2 e (fRM, 3%N, Ext, 12%N) /\ 0 < gq2 e (fBO, 1%N, Nd 3%N, 10%N).
+Proof. exact C02m_nonvacuous. Qed.
+
+
 Print Assumptions C02_backorders_eq_neg_il.
 Print Assumptions C02_counts_nonneg.
 Print Assumptions C02_on_order_nonneg.
 Print Assumptions C02_shipping_bound.
 Print Assumptions C02_demand_met_bounds.
 Print Assumptions C02_fill_rate.
+Print Assumptions C02_multi_backorders_eq_neg_il.
+Print Assumptions C02_multi_counts_nonneg.
+Print Assumptions C02_multi_shares_le_available.
+Print Assumptions C02_multi_production_within_stock.
+Print Assumptions C02_multi_on_order_nonneg.
+Print Assumptions C02_multi_shipping_bound.
+Print Assumptions C02_multi_demand_met_bounds.
+Print Assumptions C02_multi_fill_rate.
